@@ -57,7 +57,10 @@ def build(s):
     mask = numpy.array(s["mask"], dtype=bool).reshape(s["shape"])
     if layout:
         return numpy.ma.array(data, mask=_relayout(mask, layout), copy=False)
-    return numpy.ma.array(data, mask=mask)
+    out = numpy.ma.array(data, mask=mask)
+    if s.get("hard"):
+        out.harden_mask()       # missing cells that cannot be un-masked by assignment (numpy.ma's hard mask)
+    return out
 
 
 def to_spec(a):
